@@ -228,7 +228,7 @@ def observe(nn_state, R, numeric=False, force=None):
 
     def randperm(*a, **k):
         r = orig_randperm(*a, **k)
-        if draw.get("active") and force is not None:
+        if draw.get("active") and draw.get("forced") is not None:
             r = torch.tensor([x - 1 for x in draw["forced"][0]], dtype=torch.long)
         if draw.get("active"):
             draw.setdefault("perm", []).append([int(x) + 1 for x in r])
@@ -236,7 +236,7 @@ def observe(nn_state, R, numeric=False, force=None):
 
     def randint(*a, **k):
         r = orig_randint(*a, **k)
-        if draw.get("active") and force is not None:
+        if draw.get("active") and draw.get("forced") is not None:
             r = torch.tensor([x - 1 for x in draw["forced"][1]], dtype=torch.long)
         if draw.get("active"):
             draw.setdefault("neg", []).append([int(x) + 1 for x in r])
@@ -247,10 +247,10 @@ def observe(nn_state, R, numeric=False, force=None):
     def shuffle(*a, **k):
         draw.clear()
         draw["active"] = True
-        if force is not None:
-            if not force:
-                raise common.MachineryError("replay ran out of forced draws")
+        if force:
             draw["forced"] = force.pop(0)
+        # (an epoch the behaviour does not have - the run went on where the specification stops - draws freely; the
+        # comparison of the event lists reports it)
         try:
             it = cls_shuffle(nn_state, *a, **k)
         finally:
@@ -623,9 +623,12 @@ def real_run(cfg, plan=(), seed=0, k=1, lr=0.05, numeric_hook=None, time_flag=Fa
         for d, o in zip(cfg["cbs"], cbs):
             if d["t"] == "eval":
                 if isinstance(o, MetricEvaluator):
-                    cbstate.append([[int(e), float(v["m"]) / S, None] for e, v in o.past_values])
+                    # (a record without the metric's value - an evaluation that never completed - is shown as it is)
+                    cbstate.append([[int(e), float(v["m"]) / S if "m" in v else "incomplete-record", None]
+                                    for e, v in o.past_values])
                 else:
-                    cbstate.append([[int(e), v["SigmaZ"]["mean"] / S, v["SigmaZ"]["variance"] / S ** 2] for e, v in o.past_values])
+                    cbstate.append([[int(e), v["SigmaZ"]["mean"] / S, v["SigmaZ"]["variance"] / S ** 2]
+                                    if "SigmaZ" in v else [int(e), "incomplete-record", None] for e, v in o.past_values])
             elif d["t"] == "saver":
                 cbstate.append([[nm, None] for nm in R.saved.get(len(cbstate) + 1, [])])
             elif d["t"] == "logger":
